@@ -52,7 +52,10 @@ pub type Uint = arith::U1024;
 // Top-level functions
 use std::path::PathBuf;
 use std::str::FromStr;
+#[cfg(not(yamaquasi_verif))]
 use std::sync::atomic::{AtomicBool, Ordering};
+#[cfg(yamaquasi_verif)]
+use simsync::sync::atomic::{AtomicBool, Ordering};
 
 use arith::Num;
 use arith_montgomery::{MInt, ZmodN};
